@@ -263,16 +263,56 @@ fn small_leaf(i: usize, seed: u16) -> M {
     }
 }
 
+/// `n` numbers of one width class (a column of timestamps, measurements, ids): every entry
+/// has the same encoded size
+pub fn number_series(class: u8, n: usize, seed: u16) -> M {
+    let s = seed as u64;
+    M::Arr(
+        (0..n as u64)
+            .map(|i| {
+                let k = i.wrapping_mul(2654435761).wrapping_add(s);
+                M::Num(match class % 9 {
+                    // epoch milliseconds: 9-byte unsigned integers
+                    0 => N::U(1_695_800_000_000 + k % 100_000_000),
+                    // doubles
+                    1 => N::F((k % 100_000) as f64 / 8.0 - 1000.0),
+                    // 9-byte negatives
+                    2 => N::I(-5_000_000_000 - (k % 1_000_000) as i64),
+                    // all 9-byte, integers and doubles interleaved
+                    3 => match i % 3 {
+                        0 => N::F(k as f64 * 0.5),
+                        1 => N::U(u32::MAX as u64 + 1 + k % 1000),
+                        _ => N::I(i32::MIN as i64 - 1 - (k % 1000) as i64),
+                    },
+                    // doubles with one integer among them
+                    4 => {
+                        if i == (s % n.max(1) as u64) {
+                            N::U((1u64 << 40) + k % 7)
+                        } else {
+                            N::F(k as f64 + 0.25)
+                        }
+                    }
+                    // 5-byte, 3-byte, 2-byte and 1-byte classes
+                    5 => N::U(70_000 + k % 1_000_000),
+                    6 => N::I(-300 - (k % 30_000) as i64),
+                    7 => N::U(1 + k % 200),
+                    _ => N::U(0),
+                })
+            })
+            .collect(),
+    )
+}
+
 /// a document with one large dimension; a pure function of three small parameters, so
 /// that shrinking it is cheap
 pub fn big_doc(kind: u8, size_sel: u8, seed: u16, level: u8) -> M {
     let sizes = if level >= 2 { BIG_SIZES_2 } else { BIG_SIZES_1 };
     let mut n = sizes[size_sel as usize % sizes.len()];
     // level 3: a payload just over 2^24 bytes (entry lengths that need more than 24 bits)
-    if level >= 3 && matches!(kind % 9, 2 | 4 | 5) && size_sel % 32 == 0 {
+    if level >= 3 && matches!(kind % 10, 2 | 4 | 5) && size_sel % 32 == 0 {
         n = (1 << 24) + 5;
     }
-    match kind % 9 {
+    match kind % 10 {
         // wide array of mixed small scalars
         0 => M::Arr((0..n).map(|i| small_leaf(i, seed)).collect()),
         // wide object
@@ -311,6 +351,8 @@ pub fn big_doc(kind: u8, size_sel: u8, seed: u16, level: u8) -> M {
                 })
                 .collect(),
         ),
+        // a long column of numbers of one width
+        8 => number_series((seed >> 3) as u8, n, seed),
         // heavy duplication
         _ => M::Arr((0..n).map(|i| small_leaf(i % 3, seed)).collect()),
     }
@@ -348,6 +390,8 @@ pub fn arb_tree(p: TreeParams) -> BoxedStrategy<M> {
                     M::Arr(vec![x, y])
                 }
             }),
+            // a column of 12-40 numbers of one width class
+            1 => (any::<u8>(), 12usize..40, any::<u16>()).prop_map(|(c, n, seed)| number_series(c, n, seed)),
             // adjacent objects with the same number of keys whose keys concatenate to the same
             // bytes but split differently ({"a","bc"} / {"ab","c"})
             1 => (inner.clone(), inner.clone(), any::<u16>()).prop_map(|(v1, v2, k)| {
